@@ -135,6 +135,49 @@ def replay_sequence(col, group):
             return
 
 
+def block(mats):
+    r = sum(a.shape[0] for a in mats)
+    c = sum(a.shape[1] for a in mats)
+    out = np.zeros((r, c))
+    i = j = 0
+    for a in mats:
+        out[i:i + a.shape[0], j:j + a.shape[1]] = a
+        i += a.shape[0]
+        j += a.shape[1]
+    return out
+
+
+def replay_blocks(col, group):
+    """OemProps!BlockLaw: printed cases side by side as ONE block-diagonal problem (m up to 40, n up to 30), and a HISTORY of
+    such problems in one process that keep the first and the last block and change only the blocks in between: every call
+    answers for the matrices it was given (the block-diagonal of the cases' own printed S, G, A)."""
+    from typhon.retrieval.oem import (averaging_kernel_matrix, error_covariance_matrix, retrieval_gain_matrix)
+    first, last, middles = group["first"], group["last"], group["middles"]
+    for step, mid in enumerate(middles):
+        cs = [first] + mid + [last]
+        K = block([np.array(c["K"], dtype=float) for c in cs])
+        Sa = block([np.array(c["Sa"], dtype=float) for c in cs])
+        Sy = block([np.array(c["Sy"], dtype=float) for c in cs])
+        rep = {"abstract": {"blocks": [{"K": c["K"], "S_a": c["Sa"], "S_y": c["Sy"]} for c in cs][:6], "n_blocks": len(cs),
+                            "shape_of_K": list(K.shape), "step_of_history": step + 1,
+                            "history": "same first and last block, other blocks in between"}}
+        for label, fn, key in (("retrieval_gain_matrix", lambda: retrieval_gain_matrix(K, Sa, Sy), "G"),
+                               ("error_covariance_matrix", lambda: error_covariance_matrix(K, Sa, Sy), "S"),
+                               ("averaging_kernel_matrix", lambda: averaging_kernel_matrix(K, Sa, Sy), "A")):
+            want = block([mat(c[key]) for c in cs])
+            try:
+                got = np.asarray(fn(), dtype=float)
+            except Exception as ex:
+                col.violation(label + "-raises-" + type(ex).__name__ + "-on-block-problem", dict(rep, observed=repr(ex)[:200]))
+                continue
+            col.count(1)
+            if got.shape != want.shape or not allclose(got, want, 1e-9):
+                bad = np.argwhere(~np.isclose(got, want, rtol=1e-9, atol=1e-12))[:3].tolist() if got.shape == want.shape else "shape"
+                col.violation(label + "-wrong-on-block-problem" + ("-later-in-history" if step else ""),
+                              dict(rep, first_wrong_cells=bad))
+    col.nontrivial.add("blocks-%d" % len(middles))
+
+
 def limit_family(col, _):
     """K = (1 0), Sa = I, Sy = (c): closed forms model-checked for rational c (OemProps!LimitFamily), evaluated here for
     very small noise, where a truncating pseudo-inverse would drop the unobserved direction."""
@@ -170,7 +213,7 @@ def run(ctx):
             sample = 0 if n * m <= 2 else (12 if quick else (0 if n * m <= 4 else 150))
             with open(os.path.join(d, "MCOem.cfg"), "w") as f:
                 f.write("CONSTANTS N = %d M = %d NSample = %d\nINIT Init\nNEXT Next\nINVARIANT Identities\nINVARIANT Spectrum\n"
-                        "INVARIANT ScaleLaw\nINVARIANT LimitFamily\nINVARIANT Emit\n" % (n, m, sample))
+                        "INVARIANT ScaleLaw\nINVARIANT BlockLaw\nINVARIANT LimitFamily\nINVARIANT Emit\n" % (n, m, sample))
             res = ctx.tlc(d, "OemProps", "MCOem.cfg", workers=8, seed=ctx.seed, timeout=2400)
             got = list(res.tagged("CASE"))
             if len(got) != res.distinct:          # PrintT lines of parallel workers must not have been torn
@@ -185,6 +228,17 @@ def run(ctx):
     seqs = [g[i:i + 4] for g in groups.values() for i in range(0, len(g), 4)]
     pmap(ctx, replay_sequence, seqs)
     pmap(ctx, limit_family, [0], procs=1)
+    # block-diagonal compositions: 3 x 3 blocks, 10..12 of them between a fixed first and last block (m = 36..42 > 32)
+    b33 = groups.get((3, 3), [])
+    if len(b33) < 8:
+        raise MachineryError("too few 3x3 cases for the block histories")
+    bgroups = []
+    for g in range(6 if quick else 60):
+        rng = ctx.rng
+        nb = rng.choice([10, 11, 8])          # + 2 outer blocks: n = m = 36, 39 or 30
+        bgroups.append({"first": rng.choice(b33), "last": rng.choice(b33),
+                        "middles": [[rng.choice(b33) for _ in range(nb)] for _ in range(4)]})
+    pmap(ctx, replay_blocks, bgroups)
     ctx.traces += len(cases)
     c = next(c for c in cases if len(c["K"]) == 2 and len(c["K"][0]) == 3)
     ctx.sample({k: c[k] for k in ("K", "Sa", "Sy", "S", "A")})
